@@ -7,4 +7,5 @@ CONSTANTS
   Part = "opt"
   Dims = {"features", "rf", "dilation", "dc"}
   HOpts = {"temp", "hard"}
+  Forking = FALSE
 PROPERTY OthersKept
